@@ -206,3 +206,6 @@ Section Queries.
   Definition brute_crossings (all : bool) (s : qshape) (a b : point) : list Z :=
     crossings all s a b (zrange_up 0 (lenZ (q_edges s))).
 End Queries.
+Arguments q_dim {point} _.
+Arguments q_edges {point} _.
+Arguments mkQShape {point} _ _.
